@@ -18,9 +18,32 @@ EXPLANATION = (
     "members are skipped before the schema lookup and the single-member shortcut passes the allow flag through. C16.thread: the "
     "multi-agent exporter threads states exactly like the single-agent one (def-use chains), one triplet per joint action, and "
     "export() writes one (operators: ...) line followed by the post-state per triplet. C16.objects: every Operator that the library "
-    "itself applies is constructed with the problem objects, otherwise forall effects are silently skipped."
+    "itself applies is constructed with the problem objects, otherwise forall effects are silently skipped. C16.walk: in apply_actions the "
+    "single-member shortcut is reachable for exactly one member (length tests evaluated for 0..9 members) and applies member 0, the walk over "
+    "the members is never left early, every applied Operator is built from its own member (schema by the member's name from the domain table, "
+    "the domain, the member's parameters) and members that passed the joint test are applied with the allow flag on. C16.default: the allow "
+    "flag defaults to False wherever it is handed down. C16.step: create_multi_agent_triplet records one entry per member (NOPOperator for a "
+    "nop, the member's Operator otherwise, on every path through one turn, walk never left early) and executes exactly the non-nop members "
+    "(also through JointActionCall.operational_actions). C16.parse: parse_action_call searches the pattern in the line, every group becomes "
+    "one ActionCall (token 0 = name, tokens 1.. = arguments) and all of them are returned."
 )
 UNDECIDED = "permutation independence of the accumulated result; non-interference of the members (assumed by the property)"
+
+
+def _is_nop_name(c, p=None) -> bool:
+    """the expression is the name of the nop action: NOP_ACTION, its literal value, or a module constant that holds it"""
+    if isinstance(c, ast.Constant):
+        return getattr(c, "const_name", "") == "NOP_ACTION" or c.value == "nop"
+    if isinstance(c, ast.Name):
+        if c.id == "NOP_ACTION":
+            return True
+        if p is not None:
+            try:
+                ok, v = p.repo.const_value(p.f.mod.name, c.id)
+            except Exception:
+                return False
+            return bool(ok) and v == "nop"
+    return False
 
 
 def _matcher(e, p=None):
@@ -31,11 +54,28 @@ def _matcher(e, p=None):
     if isinstance(e, ast.Compare) and len(e.ops) == 1 and isinstance(e.left, ast.Call) and callee_name(e.left) == "len" \
             and isinstance(e.comparators[0], ast.Constant) and e.comparators[0].value == 1 and isinstance(e.ops[0], ast.Eq):
         return "single"
-    if isinstance(e, ast.Compare) and len(e.ops) == 1 and isinstance(e.left, ast.Attribute) and e.left.attr == "name" \
-            and ((isinstance(e.comparators[0], ast.Name) and e.comparators[0].id == "NOP_ACTION") or
-                 (isinstance(e.comparators[0], ast.Constant) and (getattr(e.comparators[0], "const_name", "") == "NOP_ACTION" or e.comparators[0].value == "nop"))):
-        return "nop" if isinstance(e.ops[0], ast.Eq) else "!nop"
+    if isinstance(e, ast.Compare) and len(e.ops) == 1 and isinstance(e.ops[0], (ast.Eq, ast.NotEq)):
+        l, r_ = e.left, e.comparators[0]
+        if isinstance(r_, ast.Attribute) and not isinstance(l, ast.Attribute):
+            l, r_ = r_, l           # NOP_ACTION == m.name
+        if isinstance(l, ast.Attribute) and l.attr == "name" and _is_nop_name(r_, p):
+            return "nop" if isinstance(e.ops[0], ast.Eq) else "!nop"
     return None
+
+
+def _refused_before(G, g, val, apply_call, tests, raises) -> bool:
+    """validate-then-apply form: the applicability tests all sit in loops that end before the loop of this application starts, and under
+    the valuation every turn of those loops raises -- a member with this valuation then never reaches the application"""
+    mine = g.loop_of.get(g.node_containing(apply_call))
+    loops = []
+    for t in tests:
+        n = g.node_containing(t)
+        lp = g.loop_of.get(n) if n is not None else None
+        if lp is None or lp == mine or not isinstance(g.stmt[lp], ast.For):
+            return False
+        loops.append(lp)
+    seen = G.reach(val)
+    return bool(loops) and all(lp in seen and L.must_pass_in_loop(G, val, g.stmt[lp], raises) for lp in loops)
 
 
 def rule_guard(repo: Repo) -> RuleResult:
@@ -83,12 +123,14 @@ def rule_guard(repo: Repo) -> RuleResult:
         else:
             r.fail(Finding("C16.guard", f, "shortcut", f"the single-action shortcut applies to {sorted(t1)[:2]} with allow={sorted(t2)[:2]}", node=c))
     raises = [n for n in g.nodes() if g.kind[n] == "raise"]
+    tests = [c for c in L.calls_in(f.node) if callee_name(c) == "is_applicable" and isinstance(c.func, ast.Attribute)]
     r.site(f.qn + " [refusal table]")
     table, bad = {}, []
     for app, allow in itertools.product([False, True], repeat=2):
         seen = G.reach({"applicable": app, "allow": allow, "single": False, "nop": False})
         raised = any(n in seen for n in raises)
-        applied = any(g.node_containing(c) in seen for c in loop_applies)
+        applied = any(g.node_containing(c) in seen and not _refused_before(G, g, {"applicable": app, "allow": allow, "single": False, "nop": False}, c, tests, raises)
+                      for c in loop_applies)
         want = (not app) and (not allow)
         table[f"applicable={app},allow={allow}"] = {"raise": raised, "member_applied": applied}
         if raised != want or applied != (not want):
@@ -303,11 +345,494 @@ def rule_joint(repo: Repo) -> RuleResult:
     return r
 
 
+# ================================================================================================ walk / step / parse clauses
+# (necessary conditions of "a joint action acts like its members": every member is visited, turned into ITS operator, recorded)
+
+# what an Operator that stands for ONE member m of a joint action is built from (Operator.__init__, models/pddl_operator.py)
+OPERATOR_OF_MEMBER = {
+    "action": "the schema found in the domain's action table under m.name",
+    "domain": "the domain the schema was taken from",
+    "grounded_action_call": "m.parameters (the objects the member is called with)",
+}
+# an ActionCall copied from a member m (ActionCall.__init__, models/action_call.py): which attribute of m each parameter receives
+ACTIONCALL_OF_MEMBER = {"name": "attr:name", "grounded_parameters": "attr:parameters"}
+# token positions of `(name arg1 arg2 ...)` after splitting on white space: the first token is the action name, the rest are the arguments
+TOKENS_OF_GROUP = {"name": "first token (index 0)", "grounded_parameters": "all tokens from index 1 on"}
+# functions through which "inapplicable actions are allowed" is handed down; the property demands an EXPLICIT permission, so the default is False
+OPT_IN_PARAMETER = "allow_inapplicable_actions"
+OPT_IN_FUNCTIONS = ("multi_agent.common::apply_actions", "MultiAgentTrajectoryExporter.create_multi_agent_triplet", "MultiAgentTrajectoryExporter.parse_plan")
+# joint action sizes the property quantifies over (1-4 members); length tests are evaluated for 0 .. LEN_RANGE-1 members
+MEMBER_COUNTS = (1, 2, 3, 4)
+LEN_RANGE = 10
+# regex searches that enumerate the parenthesised groups of a line
+GROUP_SEARCHES = ("finditer", "findall")
+
+
+def _first_position(m: str) -> bool:
+    return m in ("item:0", "unpack:0", "item:-1")
+
+
+def _fixed_position(m: str) -> bool:
+    return m.startswith(("item:", "unpack:"))
+
+
+def _split_member(x: tuple, is_members):
+    """(member designator, rest of the path) when the path goes through ONE element of the member collection"""
+    from . import _c16_util as U
+    x = U.norm_path(x)
+    for i in range(1, len(x)):
+        if is_members(tuple(x[:i])):
+            return x[i], tuple(x[i + 1:])
+    return None
+
+
+def _len_atom(e, p, is_members):
+    """a comparison between the number of members and integer constants -- `len(M) == 1`, `1 == len(M)`, `0 < len(M) < 2`, also through a
+    local that holds the length -- evaluated for 0 .. LEN_RANGE-1 members; the atom is named by its truth table, so equivalent tests share
+    one atom and complementary tests are its negation"""
+    if not (isinstance(e, ast.Compare) and all(isinstance(o, (ast.Eq, ast.NotEq, ast.Lt, ast.LtE, ast.Gt, ast.GtE)) for o in e.ops)):
+        return None
+    operands = [e.left] + list(e.comparators)
+
+    def is_len(x):
+        if not isinstance(x, (ast.Call, ast.Name)):
+            return False
+        try:
+            tr = p.trace(x)
+        except (KeyError, RecursionError):
+            return False
+        return bool(tr) and all(len(t) >= 2 and t[-1] == "arg0:len" and is_members(tuple(t[:-1])) for t in tr)
+
+    kinds = []
+    for o in operands:
+        if isinstance(o, ast.Constant) and isinstance(o.value, int) and not isinstance(o.value, bool):
+            kinds.append(o.value)
+        elif is_len(o):
+            kinds.append(None)
+        else:
+            return None
+    if None not in kinds:
+        return None
+    import operator as OP
+    fn = {ast.Eq: OP.eq, ast.NotEq: OP.ne, ast.Lt: OP.lt, ast.LtE: OP.le, ast.Gt: OP.gt, ast.GtE: OP.ge}
+    bits = ""
+    for n in range(LEN_RANGE):
+        vals = [n if k is None else k for k in kinds]
+        bits += "1" if all(fn[type(o)](a, b) for o, a, b in zip(e.ops, vals, vals[1:])) else "0"
+    if bits[0] == "1":
+        return "!len:" + "".join("1" if b == "0" else "0" for b in bits)
+    return "len:" + bits
+
+
+def _len_valuation(atoms, n: int) -> dict:
+    return {a: a[4:][n] == "1" for a in atoms if a.startswith("len:")}
+
+
+def _walk_matcher(p, is_members):
+    def m(e):
+        a = _len_atom(e, p, is_members)
+        if a:
+            return a
+        a = _matcher(e, p)
+        return None if a == "single" else a
+    return m
+
+
+def _member_operator(src, is_domain, is_members):
+    """problems of one Operator construction that has to stand for one member; returns ([(parameter, text)], {member designators})"""
+    bad, members = [], set()
+    lookups = keys = 0
+    for x in src.get("action", set()):
+        if "askey" in x[:-1]:
+            continue        # how an index was computed
+        if x and x[-1] == "askey":
+            sm = _split_member(x[:-1], is_members)
+            if sm is not None and sm[1] == ("attr:name",):
+                members.add(sm[0])
+                keys += 1
+            else:
+                bad.append(("action", f"the schema is looked up under {x[:-1]} instead of the member's name"))
+        elif any(is_domain(tuple(x[:i])) and x[i] == "attr:actions" for i in range(1, len(x))):
+            lookups += 1
+        else:
+            bad.append(("action", f"the action schema is {x} instead of an entry of the domain's action table"))
+    if not bad and not (lookups and keys):
+        bad.append(("action", "the action schema is not looked up in the domain's action table under the member's name"))
+    dom = {x for x in src.get("domain", set()) if "askey" not in x}
+    if not dom or not all(is_domain(x) for x in dom):
+        bad.append(("domain", f"the operator's domain is {sorted(dom)[:2]}"))
+    args = {x for x in src.get("grounded_action_call", set()) if "askey" not in x}
+    ok_args = bool(args)
+    for x in args:
+        sm = _split_member(x, is_members)
+        if sm is not None and sm[1] == ("attr:parameters",):
+            members.add(sm[0])
+        else:
+            ok_args = False
+    if not ok_args:
+        bad.append(("grounded_action_call", f"the operator is grounded with {sorted(args)[:2]} instead of the member's parameters"))
+    if not bad and len(members) != 1:
+        bad.append(("grounded_action_call", f"schema and arguments of one operator come from different members {sorted(members)}"))
+    return bad, members
+
+
+def rule_walk(repo: Repo) -> RuleResult:
+    from . import _c16_util as U
+    r = RuleResult("C16.walk", "apply_actions: the single-member shortcut is taken for exactly one member and applies member 0; the walk over the members is never "
+                   "left early; every applied operator is built from ITS member (schema by name, domain, arguments); after the joint test members are applied unconditionally",
+                   "the result is the state after all members, whatever their number and wherever the nop entries stand")
+    f = U.stmt_form(repo, "multi_agent.common::apply_actions")
+    p = L.prov(repo, f)
+    is_members = lambda x: x == ("param:joint_action",)
+    is_domain = lambda x: x == ("param:domain",)
+    G = L.Guards(f, _walk_matcher(p, is_members))
+    op_init = repo.find_method("Operator", "__init__")
+    ap = repo.func("Operator.apply")
+    len_atoms = [a for a in G.atoms_seen if a.startswith("len:")]
+    counts = [n for n in range(1, LEN_RANGE) if n in MEMBER_COUNTS or any(a[4:][n] != a[4:][n - 1] or (n + 1 < LEN_RANGE and a[4:][n] != a[4:][n + 1]) for a in len_atoms)]
+    shortcut, walked, walked_conts = [], [], set()
+    for c in L.calls_in(f.node):
+        if not (callee_name(c) in ("apply", "is_applicable") and isinstance(c.func, ast.Attribute)):
+            continue
+        try:
+            tr = p.trace(c.func.value, keys=True)
+        except (KeyError, RecursionError):
+            continue
+        if not any(x[0] == "fresh:Operator" for x in tr):
+            continue
+        r.site(L.site(f, c, "member operator"))
+        bad, members = _member_operator(U.ctor_sources(tr, op_init, "Operator"), is_domain, is_members)
+        for param, text in bad:
+            r.fail(Finding("C16.walk", f, f"operator-args:{param}", f"{unparse(c, 50)}: {text} ({OPERATOR_OF_MEMBER[param]} expected)", node=c))
+        if not bad:
+            r.ok({"operator_of": sorted(members)})
+        if callee_name(c) != "apply" or len(members) != 1:
+            continue
+        (m,) = tuple(members)
+        (shortcut if _fixed_position(m) else walked).append((c, m))
+        if not _fixed_position(m):
+            walked_conts |= U.containers_of(tr)
+    base = {"nop": False, "applicable": True, "allow": False}
+    for c, m in shortcut:
+        r.site(L.site(f, c, "shortcut"))
+        if not _first_position(m):
+            r.fail(Finding("C16.walk", f, "shortcut-member", f"the single-member shortcut applies member {m} of the joint action, the only member is member 0", node=c))
+            continue
+        if not len_atoms:
+            continue        # the test that selects the shortcut is not a comparison of the member count: not decided here
+        wrong = [n for n in counts if n != 1 and G.reaches_expr({**base, **_len_valuation(len_atoms, n)}, c)]
+        if wrong:
+            r.fail(Finding("C16.walk", f, "shortcut-length", f"the shortcut that applies only member 0 is taken for joint actions of {wrong} members: the other members are dropped", node=c))
+        else:
+            r.ok({"shortcut_only_for": 1})
+    r.site(f.qn + " [walk]")
+    unwalked = [n for n in counts if n >= 2 and not any(G.reaches_expr({**base, **_len_valuation(len_atoms, n)}, c) for c, _m in walked)]
+    if unwalked:
+        r.fail(Finding("C16.walk", f, "walk-unreachable", f"for joint actions of {unwalked} members no application of the walked member is reached"))
+    else:
+        r.ok({"walked_for": [n for n in counts if n >= 2]})
+
+    # the walk: the loop(s) over the members in which a member is applied, or in which its operator is put aside for a later loop that applies it
+    def encloses(lp):
+        ids = {id(x) for x in ast.walk(lp)}
+        return any(id(c) in ids for c, _m in walked)
+
+    def fills(lp):
+        return any(isinstance(x, ast.Call) and isinstance(x.func, ast.Attribute) and x.func.attr in ("append", "add") and isinstance(x.func.value, ast.Name)
+                   and x.func.value.id in walked_conts for x in ast.walk(lp))
+
+    def over_set_aside(lp):
+        try:
+            tr = p.trace(lp.iter)
+        except (KeyError, RecursionError):
+            return False
+        return any(s_.startswith("in:") and s_.split("@")[-1] in walked_conts for x in tr for s_ in x)
+
+    member_loops = U.loops_over(f, p, is_members)
+    loops = [lp for lp in member_loops if encloses(lp) or fills(lp)]
+    loops += [lp for lp in ast.walk(f.node) if isinstance(lp, ast.For) and lp not in member_loops and encloses(lp) and over_set_aside(lp)]
+    many = _len_valuation(len_atoms, 2)
+    for lp in [lp for lp in member_loops if fills(lp) and not encloses(lp)]:
+        r.site(L.site(f, lp, "operators set aside"))
+        probs = U.walk_report(f, p, G, [lp], walked_conts, [("member", {"nop": False, **many}, lambda t: U.fresh_roots(t) == {"Operator"})])
+        if any(k == "entry-missing" for k, _l, _n in probs):
+            r.fail(Finding("C16.walk", f, "walk-member-dropped", "on some path through one turn of the walk the operator of a member is not kept for the application", node=lp))
+        else:
+            r.ok({"set_aside": "one operator per member"})
+    for lp in loops:
+        r.site(L.site(f, lp, "walk"))
+        early = [lab for lab, v in (("a nop entry", {"nop": True}), ("an applicable member", {"nop": False, "applicable": True, "allow": False}),
+                                   ("an allowed inapplicable member", {"nop": False, "applicable": False, "allow": True}))
+                 if L.leaves_loop_early(G, {**v, **many}, lp)]
+        if early:
+            r.fail(Finding("C16.walk", f, "walk-left-early", f"after {early[0]} the walk over the members ends: the remaining members are neither tested nor applied", node=lp))
+        else:
+            r.ok({"walk": "every member is visited"})
+    for c, _m in walked:
+        val = {"nop": False, "applicable": False, "allow": True, **many}
+        if not G.reaches_expr(val, c):
+            continue
+        r.site(L.site(f, c, "application after the joint test"))
+        al = L.arg_of(c, ap, "allow_inapplicable_actions")
+        if al is None:
+            v = L.is_true_const(ap.defaults.get("allow_inapplicable_actions"))
+        else:
+            v = L.is_true_const(al)
+            if v is None:
+                v = G.value(val, al)
+        if v is False:
+            r.fail(Finding("C16.walk", f, "walk-apply-allow", "a member that passed the joint test because inapplicable actions are allowed is applied with allow_inapplicable_actions "
+                           "false: Operator.apply refuses it although the caller allowed it", node=c))
+        else:
+            r.ok({"applied_with_allow": unparse(al, 30) if al is not None else "default"})
+    r.require_sites(3)
+    return r
+
+
+def rule_default(repo: Repo) -> RuleResult:
+    r = RuleResult("C16.default", f"'{OPT_IN_PARAMETER}' is off unless the caller passes it", "an inapplicable member is refused unless inapplicable actions were EXPLICITLY allowed")
+    for spec in OPT_IN_FUNCTIONS:
+        try:
+            f = repo.func(spec)
+        except AnalysisError:
+            continue
+        if OPT_IN_PARAMETER not in f.params:
+            continue
+        r.site(f.qn)
+        d = f.defaults.get(OPT_IN_PARAMETER)
+        if d is None:
+            r.ok({f.qn: "no default"})
+            continue
+        if isinstance(d, ast.Name):
+            ok, v = repo.const_value(f.mod.name, d.id)
+            d = ast.Constant(value=v) if ok else d
+        if isinstance(d, ast.Constant) and d.value is not False and d.value is not None and d.value != 0:
+            r.fail(Finding("C16.default", f, f"default:{OPT_IN_PARAMETER}", f"{OPT_IN_PARAMETER} defaults to {d.value!r}: a joint action with an inapplicable member is applied "
+                           "although nobody allowed it", node=f.node))
+        else:
+            r.ok({f.qn: "False"})
+    r.require_sites(1)
+    return r
+
+
+def _param_named(init, attr: str, fallback: str) -> str:
+    """the constructor parameter that is stored in self.<attr>"""
+    if init is not None:
+        for n in ast.walk(init.node):
+            if isinstance(n, (ast.Assign, ast.AnnAssign)) and isinstance(n.value, ast.Name) and n.value.id in init.params:
+                tgts = n.targets if isinstance(n, ast.Assign) else [n.target]
+                if any(isinstance(t, ast.Attribute) and t.attr == attr and isinstance(t.value, ast.Name) and t.value.id == init.self_name for t in tgts):
+                    return n.value.id
+    return fallback
+
+
+def _content(tr):
+    return {x for x in tr if not (len(x) == 1 and x[0].startswith("fresh:")) and "askey" not in x}
+
+
+def _report_walk(r: RuleResult, rid: str, f, probs, prefix: str, texts, ok_sample):
+    roles = set()
+    for kind, label, nd in probs:
+        role = f"{prefix}{kind}" + ("" if kind == "left-early" or not label else f":{label}")
+        if role in roles:
+            continue
+        roles.add(role)
+        r.fail(Finding(rid, f, role, texts[kind].format(label=label, what=unparse(nd, 50) if nd is not None else "?"), node=nd))
+    if not probs:
+        r.ok(ok_sample)
+
+
+def _collected(repo: Repo, r: RuleResult, rid: str, f, p, G, sink_tr, sources, cases, prefix: str, what: str, texts, node=None, of: str = "the members of the joint action"):
+    """the collection with provenance `sink_tr` is filled by a walk (possibly in stages) over one of the `sources`; `cases` per source"""
+    from . import _c16_util as U
+    stages_by = [(U.walk_chain(f, p, src, sink_tr), cs) for src, cs in zip(sources, cases)]
+    if not any(st and any(fin for _lp, _t, fin in st) for st, _cs in stages_by):
+        if any(len(x) > 1 for x in _content(sink_tr)):
+            raise AnalysisError(f"{f.qn}: the walk that fills {what} is not recognised")
+        r.fail(Finding(rid, f, f"{prefix}not-collected", f"{what} is not filled from {of}: it stays empty", node=node))
+        return
+    probs = []
+    for st, cs in stages_by:
+        if st and any(fin for _lp, _t, fin in st):
+            probs += U.chain_report(f, p, G, st, cs)
+    _report_walk(r, rid, f, probs, prefix, texts, {what: "one entry per member"})
+
+
+def rule_step(repo: Repo) -> RuleResult:
+    from . import _c16_util as U
+    rid = "C16.step"
+    r = RuleResult(rid, "create_multi_agent_triplet: the step records one entry per member in order (NOPOperator for a nop, the member's own Operator otherwise) and hands "
+                   "exactly the non-nop members to apply_actions", "one step per joint action that lists what every agent did; nop entries change nothing")
+    f = U.stmt_form(repo, "MultiAgentTrajectoryExporter.create_multi_agent_triplet")
+    p = L.prov(repo, f)
+    parsed = lambda x: len(x) >= 2 and any(s_.endswith(":parse_action_call") for s_ in x[:-1])
+    is_all = lambda x: parsed(x) and x[-1] == "attr:actions" and "elem" not in x
+    is_filtered = lambda x: parsed(x) and x[-1] == "attr:operational_actions" and "elem" not in x
+    is_members = lambda x: is_all(x) or is_filtered(x)
+    is_domain = lambda x: x == ("self", "attr:domain")
+    G = L.Guards(f, _walk_matcher(p, is_members))
+    op_init = repo.find_method("Operator", "__init__")
+    ac_init = repo.find_method("ActionCall", "__init__")
+    tri_init = repo.find_method("MultiAgentTrajectoryTriplet", "__init__")
+    ops_param = _param_named(tri_init, "joint_action", "ops")
+    # -- the recorded joint action
+    ctors = [c for c in L.calls_in(f.node) if callee_name(c) == "MultiAgentTrajectoryTriplet"]
+    if not ctors:
+        raise AnalysisError("create_multi_agent_triplet: construction of the triplet not found")
+    texts = {"entry-missing": "on some path through one turn of the walk a {label} entry of the joint action is not recorded in the step",
+             "entry-wrong": "for a {label} entry the step records {what}",
+             "left-early": "the walk that records the members can end before the last member: later members are missing from the step"}
+    for c in ctors:
+        a = L.arg_of(c, tri_init, ops_param, 1)
+        if a is None:
+            raise AnalysisError("create_multi_agent_triplet: the recorded joint action of the triplet is not recognised")
+        r.site(L.site(f, c, "recorded joint action"))
+        tr = p.trace(a, keys=True)
+        def built(cls):
+            def accept(t):
+                kinds = U.fresh_roots(t)
+                if not kinds:
+                    raise AnalysisError("create_multi_agent_triplet: an entry of the recorded joint action is not built in the function (or its private helpers)")
+                return kinds == {cls}
+            return accept
+        cases = [("nop", {"nop": True}, built("NOPOperator")), ("member", {"nop": False}, built("Operator"))]
+        _collected(repo, r, rid, f, p, G, tr, [is_all], [cases], "recorded:", "the joint action recorded in the triplet", texts, node=c)
+        src = U.ctor_sources({x for x in tr if x[0] != "fresh:Operator"}, op_init, "Operator")
+        if src:
+            r.site(L.site(f, c, "recorded operators"))
+            bad, _m = _member_operator(src, is_domain, is_all)
+            for param, text in bad:
+                r.fail(Finding(rid, f, f"recorded:operator-args:{param}", f"{text} ({OPERATOR_OF_MEMBER[param]} expected)", node=c))
+            if not bad:
+                r.ok({"recorded_operator_of": "its member"})
+    # -- the executed members
+    ap = repo.func("multi_agent.common::apply_actions")
+    texts = {"entry-missing": "on some path through one turn of the walk a {label} entry adds nothing to the executed members",
+             "entry-wrong": "for a {label} entry the walk adds {what} to the executed members",
+             "left-early": "the walk that collects the executed members can end before the last member"}
+    for c in [c for c in L.calls_in(f.node) if callee_name(c) == "apply_actions"]:
+        a = L.arg_of(c, ap, "joint_action", 2)
+        if a is None:
+            continue
+        r.site(L.site(f, c, "executed members"))
+        tr = p.trace(a, keys=True)
+        content = _content(tr)
+        direct = {x for x in content if not any(s_.startswith("in:") for s_ in x)}
+        uses_view = any("attr:operational_actions" in x for x in content)
+        if direct and all(is_filtered(x) for x in direct) and direct == content:
+            r.ok({"executed": "the non-nop view of the parsed joint action"})
+        elif direct and all(is_all(x) for x in direct) and direct == content:
+            r.ok({"executed": "all members (nop entries are skipped by apply_actions)"})       # not decided here
+        else:
+            def accept(t):
+                ck = U.fresh_roots(t)
+                if ck == {"ActionCall"}:
+                    return True
+                t = _content(t)
+                return not ck and bool(t) and all(_split_member(x, is_members) is not None and _split_member(x, is_members)[1] == () for x in t)
+            _collected(repo, r, rid, f, p, G, tr, [is_all, is_filtered], [[("member", {"nop": False}, accept), ("nop", {"nop": True}, None)], [("member", {}, accept)]],
+                       "executed:", "the list of executed members", texts, node=c)
+            src = U.ctor_sources(tr, ac_init, "ActionCall")
+            bad = []
+            for param, step in ACTIONCALL_OF_MEMBER.items():
+                for x in src.get(param, set()):
+                    if "askey" in x:
+                        continue
+                    sm = _split_member(x, is_members)
+                    if sm is None or sm[1] != (step,):
+                        bad.append((param, x))
+            for param, x in bad[:1]:
+                r.fail(Finding(rid, f, f"executed:actioncall-args:{param}", f"the executed copy of a member gets {x} as its {param}", node=c))
+        if uses_view:
+            try:
+                fv = U.stmt_form(repo, "JointActionCall.operational_actions")
+            except AnalysisError:
+                fv = None
+            if fv is not None:
+                pv = L.prov(repo, fv)
+                own = lambda x: x == ("self", "attr:actions")
+                Gv = L.Guards(fv, _walk_matcher(pv, own))
+                keep = lambda t: bool(_content(t)) and all(U.norm_path(x) == ("self", "attr:actions", "elem") for x in _content(t))
+                for ret in L.func_returns(fv):
+                    r.site(L.site(fv, ret, "non-nop view"))
+                    _collected(repo, r, rid, fv, pv, Gv, pv.trace(ret.value, keys=True), [own], [[("member", {"nop": False}, keep), ("nop", {"nop": True}, None)]],
+                               "executed:", "the non-nop view of a joint action", texts, node=ret)
+    r.require_sites(2)
+    return r
+
+
+def rule_parse(repo: Repo) -> RuleResult:
+    from . import _c16_util as U
+    rid = "C16.parse"
+    r = RuleResult(rid, "parse_action_call: the pattern is searched in the line; every parenthesised group becomes one ActionCall (first token = name, the rest = arguments) "
+                   "and all of them are returned, in order", "the parsed joint action has one entry per agent, with the agent's action and objects")
+    f = U.stmt_form(repo, "multi_agent.multi_agent_trajectory_exporter::parse_action_call")
+    if not f.params:
+        raise AnalysisError("parse_action_call: no parameter")
+    p = L.prov(repo, f)
+    line = f"param:{f.params[0]}"
+    G = L.Guards(f, lambda e: None)
+    jac_init = repo.find_method("JointActionCall", "__init__")
+    ac_init = repo.find_method("ActionCall", "__init__")
+    # -- what is searched in what
+    for c in L.calls_in(f.node):
+        if callee_name(c) not in GROUP_SEARCHES or not isinstance(c.func, ast.Attribute):
+            continue
+        r.site(L.site(f, c, "search"))
+        recv = p.trace(c.func.value)
+        kw = {k.arg: k.value for k in c.keywords if k.arg}
+        if recv and all(x == ("global:re",) for x in recv):
+            pat = kw.get("pattern", c.args[0] if len(c.args) > 0 else None)
+            text = kw.get("string", c.args[1] if len(c.args) > 1 else None)
+        else:
+            pat, text = c.func.value, kw.get("string", c.args[0] if c.args else None)
+        t_pat = p.trace(pat) if pat is not None else set()
+        t_text = p.trace(text) if text is not None else set()
+        if t_text and all(x[0] == line for x in t_text) and t_pat and not any(x[0] == line for x in t_pat):
+            r.ok({"searched": "the pattern in the line"})
+        else:
+            r.fail(Finding(rid, f, "search-args", f"{unparse(c, 60)}: the text that is searched is {sorted(t_text)[:2]}, the pattern {sorted(t_pat)[:2]} "
+                           "(the joint action line has to be searched for the member pattern)", node=c))
+    # -- one ActionCall per group, all returned
+    is_matches = lambda x: x[-1].split(":")[-1] in GROUP_SEARCHES and x[-1].startswith(("call:", "arg", "kw:"))
+    texts = {"entry-missing": "on some path a parenthesised group of the line adds no ActionCall to the joint action",
+             "entry-wrong": "for a group the walk adds {what}",
+             "left-early": "the walk over the groups can end before the last group"}
+    for ret in L.func_returns(f):
+        if ret.value is None:
+            continue
+        r.site(L.site(f, ret, "parsed joint action"))
+        tr = p.trace(ret.value, keys=True)
+        if not any(x[0] == "fresh:JointActionCall" for x in tr):
+            raise AnalysisError("parse_action_call: the returned JointActionCall is not built here")
+        src = U.ctor_sources(tr, jac_init, "JointActionCall")
+        members = src.get(_param_named(jac_init, "actions", "actions"), set())
+        _collected(repo, r, rid, f, p, G, members, [is_matches], [[("", {}, lambda t: U.fresh_roots(t) == {"ActionCall"})]], "groups:",
+                   "the member list of the returned joint action", texts, node=ret, of="the parenthesised groups of the line")
+        # token positions
+        asrc = U.ctor_sources({U.norm_path(x) for x in members}, ac_init, "ActionCall")
+        for param, want in (("name", lambda s_: s_ in ("item:0", "unpack:0")), ("grounded_parameters", lambda s_: s_ == "slice:1:")):
+            pos = set()
+            for x in asrc.get(param, set()):
+                if x and x[0] == line and "call:split" in x and "askey" not in x:
+                    i = len(x) - 1 - x[::-1].index("call:split")
+                    pos.add(x[i + 1] if i + 1 < len(x) else "whole")
+            if not pos:
+                continue
+            r.site(L.site(f, ret, f"tokens of {param}"))
+            if all(want(s_) for s_ in pos):
+                r.ok({param: sorted(pos)})
+            else:
+                r.fail(Finding(rid, f, f"tokens:{param}", f"the {param} of a member is taken from {sorted(pos)} of the split group ({TOKENS_OF_GROUP[param]} expected)", node=ret))
+    r.require_sites(2)
+    return r
+
+
 def rules(repo: Repo, tier: str) -> List[RuleResult]:
     return [rule_guard(repo), rule_regex(repo),
             c04.rule_thread(repo, "C16.thread", "MultiAgentTrajectoryExporter.parse_plan", "create_multi_agent_triplet", init_fn="create_initial_state"),
             rule_export(repo, "C16.export", "MultiAgentTrajectoryExporter", "operators:"),
-            rule_objects(repo), rule_joint(repo)] + _member_rules(repo)
+            rule_objects(repo), rule_joint(repo), rule_walk(repo), rule_default(repo), rule_step(repo), rule_parse(repo)] + _member_rules(repo)
 
 
 def _member_rules(repo: Repo) -> List[RuleResult]:
